@@ -96,10 +96,10 @@ Inst(s) ==
          ELSE IF Has(s.sent, "RUNNING") THEN "running"
          ELSE IF s.rpc = "up" \/ s.lpc \in {"poll", "wait", "send", "done"} THEN "polling"
          ELSE "starting"
-    ELSE IF ~Has(s.sent, "RUNNING") THEN "launching"
-         ELSE IF Len(s.btt) > 0 THEN "reaped"
+    ELSE IF Len(s.btt) > 0 THEN "reaped"
          ELSE IF s.rel \/ (s.vstart /\ s.beh = "crash") THEN "exiting"
          ELSE IF s.vstart THEN "running"
+         ELSE IF ~Has(s.sent, "RUNNING") THEN "launching"
          ELSE "nochild"
 
 Ok(s) == s.exec = "ok"
@@ -160,7 +160,9 @@ DoTimer(s) ==
   IF s.timer /\ Ok(s) THEN {[s EXCEPT !.timer = FALSE, !.sent = Append(@, "RUNNING")]} ELSE {}
 
 Drop(s, i) == [s EXCEPT !.hs = RemoveAt(@, i)]
-ReqOf(s, i) == [r |-> s.hs[i].r, inst |-> s.hs[i].inst, nth |-> s.hs[i].nth]   \* whom to blame for what handler i does
+(* whom to blame for what handler i does now: the request, and the instant at which it takes effect
+   (for a handler that runs at once - every generated scenario - the instant at which it arrived) *)
+ReqOf(s, i) == [r |-> s.hs[i].r, inst |-> Inst(s), nth |-> s.hs[i].nth]
 (* a Kill starts acting on a task whose child has not gone away on its own: from here on FAILED is wrong *)
 KillAt(s) == IF s.killAt = 0 /\ ~s.rel /\ ~(s.beh = "crash" /\ s.child # "none") /\ s.child \in {"none", "running"}
                THEN Len(s.sent) + 1 ELSE s.killAt
